@@ -14,6 +14,17 @@ open DV DV.C09 DV.C09.Gen
 
 namespace C09Driver
 
+/-- a scalar value together with its C++ type: the scalar operand of `v @ s` / `s @ v` may have another arithmetic type
+    than the lanes (`binx` cases) -/
+inductive IntTy where
+  | b | i16 | i32 | u32 | i64
+  deriving DecidableEq
+
+inductive Num where
+  | int (t : IntTy) (v : Int)
+  | f32 (x : Float32)
+  | f64 (x : Float)
+
 /-- what the driver needs of a scalar type -/
 structure Sem (α : Type) where
   parse : String → Option α
@@ -26,6 +37,9 @@ structure Sem (α : Type) where
   inc : IncOp → Option (α → Option α)
   zero : α
   classify : Option (α → Bool × Bool × Bool)     -- (isNaN, isInf, isFinite) for floating point
+  toNum : α → Num
+  ofNum : Num → Option α                          -- the implicit conversion `U → T` of C++ (x86-64 for float → integer)
+  shiftI : ShiftOp → Option (α → Int → Option α)  -- shift by a count of another integer type
 
 def hexPad (digits : Nat) (n : Nat) : String :=
   let h := (toHex n).toList
@@ -37,6 +51,36 @@ def parseHexTok (s : String) : Option Nat :=
   | _ => none
 
 -- integers ----------------------------------------------------------------------------------------------
+
+/-- truncation toward zero of a finite value inside the range of `long` (`cvttsd2si`); `none` = "integer indefinite" -/
+def truncF (x : Float) : Option Int :=
+  if x.isNaN then none
+  else if x ≥ 9223372036854775808.0 || x < -9223372036854775808.0 then none
+  else some x.toInt64.toInt
+
+/-- `float/double → signed integer of w bits` as x86-64 does it (out of range: the most negative value) -/
+def fpToSigned (w : Nat) (x : Float) : Int :=
+  match truncF x with
+  | some t => if -(2 : Int) ^ (w - 1) ≤ t ∧ t < (2 : Int) ^ (w - 1) then t else -(2 : Int) ^ (w - 1)
+  | none => -(2 : Int) ^ (w - 1)
+
+def Num.truth : Num → Bool
+  | .int _ v => v ≠ 0
+  | .f32 x => !(x == 0)
+  | .f64 x => !(x == 0)
+def Num.toF64 : Num → Float
+  | .int _ v => Float.ofInt v
+  | .f32 x => x.toFloat
+  | .f64 x => x
+def Num.toF32 : Num → Float32
+  | .int _ v => Float32.ofInt v
+  | .f32 x => x
+  | .f64 x => x.toFloat32
+/-- integral promotion: `bool`, `short` → `int` -/
+def Num.promote : Num → Num
+  | .int .b v => .int .i32 v
+  | .int .i16 v => .int .i32 v
+  | n => n
 
 def inRange (w : Nat) (x : Int) : Option Int :=
   if -(2 : Int) ^ (w - 1) ≤ x ∧ x < (2 : Int) ^ (w - 1) then some x else none
@@ -82,6 +126,12 @@ def semInt (w : Nat) : Sem Int where
   inc := fun op => some (intInc w op)
   zero := 0
   classify := none
+  toNum := fun a => .int (if w = 64 then .i64 else .i32) a
+  ofNum := fun n => match n with
+    | .int _ v => some (ofU w (toU w v))
+    | .f64 x => some (fpToSigned w x)
+    | .f32 x => some (fpToSigned w x.toFloat)
+  shiftI := fun op => some (intShift w op)
 
 -- short: computed in `int` (integer promotion), converted back to 16 bits (wraps) -----------------------------
 
@@ -98,6 +148,12 @@ def semI16 : Sem Int where
   inc := fun op => some fun a => (intInc 32 op a).map (wrapS 16)
   zero := 0
   classify := none
+  toNum := fun a => .int .i16 a
+  ofNum := fun n => match n with
+    | .int _ v => some (wrapS 16 v)
+    | .f64 x => some (wrapS 16 (fpToSigned 32 x))
+    | .f32 x => some (wrapS 16 (fpToSigned 32 x.toFloat))
+  shiftI := fun op => some fun a c => (intShift 32 op a c).map (wrapS 16)
 
 -- unsigned: arithmetic modulo 2^w -----------------------------------------------------------------------------
 
@@ -133,6 +189,12 @@ def semUInt (w : Nat) : Sem Int where
     | .dec => some (wrapU w (a - 1))
   zero := 0
   classify := none
+  toNum := fun a => .int .u32 a
+  ofNum := fun n => match n with
+    | .int _ v => some (wrapU w v)
+    | .f64 x => some (wrapU w (fpToSigned 64 x))
+    | .f32 x => some (wrapU w (fpToSigned 64 x.toFloat))
+  shiftI := fun op => some fun a c => if 0 ≤ c then uintShift w op a c else none
 
 -- bool: promoted to int, result converted back ------------------------------------------------------------
 
@@ -149,6 +211,9 @@ def semBool : Sem Bool where
   inc := fun _ => none
   zero := false
   classify := none
+  toNum := fun a => .int .b (b2i a)
+  ofNum := fun n => some n.truth
+  shiftI := fun op => some fun a c => (intShift 32 op (b2i a) c).map (· ≠ 0)
 
 -- floating point -------------------------------------------------------------------------------------------
 
@@ -169,6 +234,9 @@ def semF64 : Sem Float where
   inc := fun op => match op with | .inc => some fun a => some (a + 1) | .dec => some fun a => some (a - 1)
   zero := 0
   classify := some fun a => (a.isNaN, a.isInf, a.isFinite)
+  toNum := fun a => .f64 a
+  ofNum := fun n => some n.toF64
+  shiftI := fun _ => none
 
 def semF32 : Sem Float32 where
   parse := fun s => match parseHexTok s with
@@ -187,6 +255,70 @@ def semF32 : Sem Float32 where
   inc := fun op => match op with | .inc => some fun a => some (a + 1) | .dec => some fun a => some (a - 1)
   zero := 0
   classify := some fun a => (a.isNaN, a.isInf, a.isFinite)
+  toNum := fun a => .f32 a
+  ofNum := fun n => some n.toF32
+  shiftI := fun _ => none
+
+-- scalar operand of another arithmetic type: the built-in mixed-type operations of C++ -----------------------------
+
+def parseNum (ty tok : String) : Option Num :=
+  match ty with
+  | "b" => (semBool.parse tok).map fun b => .int .b (b2i b)
+  | "i16" => (semI16.parse tok).map (.int .i16)
+  | "i32" => ((semInt 32).parse tok).map (.int .i32)
+  | "u32" => ((semUInt 32).parse tok).map (.int .u32)
+  | "i64" => ((semInt 64).parse tok).map (.int .i64)
+  | "f32" => (semF32.parse tok).map .f32
+  | "f64" => (semF64.parse tok).map .f64
+  | _ => none
+
+/-- `a @ b` for two arithmetic values after the usual arithmetic conversions: integral promotion; if one operand is
+    `double` (else `float`) the other is converted to it; `long` absorbs `int`/`unsigned`; `unsigned` absorbs `int` (modulo 2^32) -/
+def cmpNum (op : CmpOp) (a b : Num) : Bool :=
+  match a.promote, b.promote with
+  | .f64 x, y => semF64.cmp op x y.toF64
+  | x, .f64 y => semF64.cmp op x.toF64 y
+  | .f32 x, y => semF32.cmp op x y.toF32
+  | x, .f32 y => semF32.cmp op x.toF32 y
+  | .int ta va, .int tb vb =>
+    if ta = .i64 ∨ tb = .i64 then intCmp op va vb
+    else if ta = .u32 ∨ tb = .u32 then intCmp op (wrapU 32 va) (wrapU 32 vb)
+    else intCmp op va vb
+
+section MixedSem
+variable {α : Type} (T : Sem α)
+/-- `x @ s` as the per-lane statement of `v @ s` sees its scalar operand -/
+def cmpArgL (op : CmpOp) (x : α) (g : Simd.Arg Num α) : Option Bool :=
+  match g with
+  | .own s => some (cmpNum op (T.toNum x) s)
+  | .lane y => some (T.cmp op x y)
+  | .mask m => some (cmpNum op (T.toNum x) (.int .b (b2i m)))
+/-- `s @ y` -/
+def cmpArgR (op : CmpOp) (g : Simd.Arg Num α) (y : α) : Option Bool :=
+  match g with
+  | .own s => some (cmpNum op s (T.toNum y))
+  | .lane x => some (T.cmp op x y)
+  | .mask m => some (cmpNum op (.int .b (b2i m)) (T.toNum y))
+def argTruth (g : Simd.Arg Num α) : Bool :=
+  match g with
+  | .own s => s.truth
+  | .lane y => T.truth y
+  | .mask m => m
+def logicArgL (op : BoolOp) (x : α) (g : Simd.Arg Num α) : Option Bool :=
+  match op with
+  | .land => some (T.truth x && argTruth T g)
+  | .lor => some (T.truth x || argTruth T g)
+def logicArgR (op : BoolOp) (g : Simd.Arg Num α) (y : α) : Option Bool :=
+  match op with
+  | .land => some (argTruth T g && T.truth y)
+  | .lor => some (argTruth T g || T.truth y)
+def shiftArg (op : ShiftOp) (x : α) (g : Simd.Arg Num α) : Option α :=
+  match g with
+  | .own (.int _ c) => (T.shiftI op).bind fun f => f x c
+  | .own _ => none
+  | .lane y => (T.shift op).bind fun f => f x y
+  | .mask _ => none
+end MixedSem
 
 -- vectors -------------------------------------------------------------------------------------------------
 
@@ -333,6 +465,23 @@ def execT {α : Type} (tname : String) (isMask : Bool) (T : Sem α) (sh : Shape)
       | "maskand", "vv", some a, some b =>
           res ((Simd.maskCombine maskAndOp Simd.boolSem (maskOf a) (maskOf b)).map sm)
       | _, _, _, _ => if opn ∈ ["max", "min", "maskor", "maskand"] then noSuch else "bad-op"
+    | "binx", [form, opn, ta, tu, ts] =>
+      -- the scalar operand has the arithmetic type `tu` (instantiated for S = 4 only)
+      if S ≠ 4 then "bad-op" else
+      let truth : Num → Option Bool := fun s => some s.truth
+      match pv ta, parseNum tu ts with
+      | some a, some s =>
+        match cmpOpOf opn, boolOpOf opn, shiftOpOf opn, form with
+        | some op, _, _, "vs" => res ((Simd.compareVSx (cmpArgL T) T.ofNum truth op a s).map sm)
+        | some op, _, _, "sv" => res ((Simd.compareSVx (cmpArgR T) T.ofNum truth op s a).map sm)
+        | _, some op, _, "vs" => res ((Simd.logicVSx (logicArgL T) T.ofNum truth op a s).map sm)
+        | _, some op, _, "sv" => res ((Simd.logicSVx (logicArgR T) T.ofNum truth op s a).map sm)
+        | _, _, some op, "vs" =>
+          match T.shiftI op, s with
+          | some _, .int _ _ => res ((Simd.shiftVSx (shiftArg T) T.ofNum truth op a s).map sv)
+          | _, _ => noSuch
+        | _, _, _, _ => noSuch
+      | _, _ => "bad-op"
     | "asg", [form, opn, ta, tb] =>
       match assignOpOf opn with
       | none => noSuch
@@ -397,6 +546,21 @@ def execT {α : Type} (tname : String) (isMask : Bool) (T : Sem α) (sh : Shape)
       if isMask then some (v.map fun e => e.map T.truth) else Simd.maskNested cmpSem T.zero v
     match kind, rest with
     | "bin", ["va", _, _, _] => "bad-op"
+    | "binx", [form, opn, ta, tu, ts] =>
+      if ¬ ((S₁, S₂) = (2, 2) ∧ (tname = "i32" ∨ tname = "f64")) then "bad-op" else
+      let truth : Num → Option Bool := fun s => some s.truth
+      match pv ta, parseNum tu ts with
+      | some a, some s =>
+        match cmpOpOf opn, boolOpOf opn, shiftOpOf opn, form with
+        | some op, _, _, "vs" => res ((Simd.binVSxNested loop_COMPARISON_OP_vs (cmpArgL T op) T.ofNum truth a s).map sm)
+        | some op, _, _, "sv" => res ((Simd.binSVxNested loop_COMPARISON_OP_sv (cmpArgR T op) T.ofNum truth s a).map sm)
+        | _, some op, _, "vs" => res ((Simd.binVSxNested loop_BOOLEAN_OP_vs (logicArgL T op) T.ofNum truth a s).map sm)
+        | _, _, some op, "vs" =>
+          match T.shiftI op, s with
+          | some _, .int _ _ => res ((Simd.binVSxNested loop_BITSHIFT_OP_vs (shiftArg T op) T.ofNum truth a s).map sv)
+          | _, _ => noSuch
+        | _, _, _, _ => noSuch    -- no `Mask<T> && vector` overload exists for nested vectors
+      | _, _ => "bad-op"
     | "bin", [form, opn, ta, tb] =>
       match binOpOf opn with
       | some op => match T.bin op with
